@@ -333,3 +333,44 @@ def rule_e(chk, prog):
                       + "their difference (the daily root expansion) can be negative and the rooting depth shrinks",
                       loc=rd.loc(diffs[0]))
     chk.floor("C05.e", min(len(sA), len(sB)), 4, "definitions per curve evaluation")
+    # C05.i: yesterday's development time is today's minus today's increment - one day (calendar days) or the day's degree days (thermal time);
+    # the delay adjustment of the clock is common to both. Anything else (the unadjusted clock, a different delay) puts the two evaluations on
+    # different clocks: after a delay the "previous" depth lies ahead of today's and the expansion is negative.
+    from .. import affine as A
+    from fractions import Fraction
+
+    def cal_guard(a):
+        nid = flow.stmt_node.get(id(a))
+        for t, l in cfg.transitive_control_deps(nid) if nid is not None else ():
+            c = cfg.nodes[t].ast
+            if cfg.nodes[t].kind == "test" and l is True and isinstance(c, ast.Compare) and len(c.ops) == 1 and isinstance(c.ops[0], ast.Eq) \
+                    and isinstance(c.left, ast.Attribute) and c.left.attr == "CalendarType" and isinstance(c.comparators[0], ast.Constant):
+                return c.comparators[0].value
+        return None
+    d_ta = {cal_guard(a): a for a in defs(ta)}
+    n_i = 0
+    for b in defs(tb):
+        c = cal_guard(b)
+        a = d_ta.get(c, d_ta.get(None))
+        construct = f"{norm(b)}  [CalendarType == {c}]"
+        if a is None:
+            chk.violation("C05.i", where, construct, f"no definition of today's development time {ta} under the same calendar type", loc=rd.loc(b))
+            continue
+        n_i += 1
+        nfa = A.NF().nf(a.value)
+        nfb = A.NF(subst=lambda nm, a=a: a.value if nm.id == ta else None).nf(b.value)
+        diff = A.add(nfb, nfa, -1)
+        ok = False
+        if len(diff) == 1:
+            (mono, coef), = diff.items()
+            if mono == A.ONE:
+                ok = coef == -1 and c in (1, None)
+            elif len(mono) == 1 and mono[0][1] == 1 and coef == -1 and mono[0][0] in rd.params and c in (2, None):
+                ok = not any(mono[0][0] == x for m in nfa for x, _ in m)
+        if ok:
+            chk.ok("C05.i", where, construct, f"{tb} - {ta} = {A.text(diff)}: yesterday's time on today's (delay-adjusted) clock")
+        else:
+            chk.violation("C05.i", where, construct, f"yesterday's development time minus today's is `{A.text(diff)}`, not minus the day's increment (1 day / the day's "
+                          "degree days): the two evaluations of the potential-depth curve are on different clocks; after a development delay the previous "
+                          "depth exceeds today's and the rooting depth shrinks", loc=rd.loc(b))
+    chk.floor("C05.i", n_i, 2, "definitions of yesterday's development time in root_development")
